@@ -121,9 +121,28 @@ Lemma tie_classic_update : upd_of_pairs Gen_attrpolicy.classic_update = classic_
 Proof. reflexivity. Qed.
 Definition Fgen : facts :=
   {| f_init_copies := Gen_attrpolicy.init_copies_defaults && Gen_attrpolicy.init_updates_own;
-     f_on_connect_own := Gen_attrpolicy.on_connect_updates_own |}.
-Lemma tie_facts : f_init_copies Fgen = true /\ f_on_connect_own Fgen = true.
+     f_on_connect_own := Gen_attrpolicy.on_connect_updates_own;
+     f_requests_leave_config := writes_at_open_only Gen_attrpolicy.config_writes |}.
+Lemma tie_facts : f_init_copies Fgen = true /\ f_on_connect_own Fgen = true /\ f_requests_leave_config Fgen = true.
+Proof. repeat split; reflexivity. Qed.
+(* the handlers that take an attribute name / that take none: exactly these, in source order *)
+Lemma tie_handler_partition :
+  handlers_with_routes Gen_attrpolicy.handlers = by_name_handlers /\
+  handlers_without_routes Gen_attrpolicy.handlers = whole_object_handlers.
 Proof. split; reflexivity. Qed.
+Lemma tie_pickle_gate : Gen_attrpolicy.pickle_gate = "allow_pickle"%string /\ Gen_attrpolicy.pickle_refusal = "ValueError"%string.
+Proof. split; reflexivity. Qed.
+(* class Service: no read hook, write and delete hooks that only raise AttributeError; nothing else under rpyc/ defines
+   or binds a _rpyc_*attr hook except restricted()'s view *)
+Lemma tie_service_hooks :
+  Gen_attrpolicy.service_hooks = [("_rpyc_delattr", "deny:AttributeError"); ("_rpyc_setattr", "deny:AttributeError")]%string /\
+  Gen_attrpolicy.service_denies_set = true /\ Gen_attrpolicy.service_denies_del = true /\
+  Gen_attrpolicy.service_defines_get_hook = false.
+Proof. repeat split. Qed.
+Lemma tie_hook_definitions : Gen_attrpolicy.hook_definitions =
+  [("rpyc/core/service.py:Service", "_rpyc_delattr"); ("rpyc/core/service.py:Service", "_rpyc_setattr");
+   ("rpyc/utils/helpers.py:restricted.Restricted", "_rpyc_getattr"); ("rpyc/utils/helpers.py:restricted.Restricted", "_rpyc_setattr")]%string.
+Proof. reflexivity. Qed.
 (* the only writes to any configuration dict under rpyc/: the three in Connection.__init__ (own fresh dict) and
    SlaveService.on_connect (the connection it was given); DEFAULT_CONFIG is only defined and copied; the shared
    safe_attrs set is only defined and tested for membership *)
@@ -340,6 +359,21 @@ Proof.
       unfold restricted_set; destruct (mem (text_of p) (r_wlist r)) eqn:M; simpl; intros H; [split; [reflexivity|now apply mem_In] | now elim H]]).
 Qed.
 
+(* a Service instance denies writes and deletes on itself whatever the configuration; reads follow the configuration *)
+Lemma service_root g c p l : is_text p ->
+  handle_service true true g c PSet p l = (Raise AttributeError, [], svc_obj l) /\
+  handle_service true true g c PDel p l = (Raise AttributeError, [], svc_obj l) /\
+  handle_service true true g c PGet p l =
+    (o_result (handle g c PGet p (svc_obj l)), o_trace (handle g c PGet p (svc_obj l)), o_obj (handle g c PGet p (svc_obj l))) /\
+  hook_for (svc_obj l) PGet = false.
+Proof. intros [E|E]; unfold handle_service; rewrite E; repeat split. Qed.
+Lemma service_root_unchanged ds dd g c perm p l : snd (handle_service ds dd g c perm p l) = svc_obj l.
+Proof.
+  unfold handle_service. destruct (nkind_of p); try reflexivity;
+    (destruct perm; [|destruct ds; reflexivity|destruct dd; reflexivity]; simpl;
+     unfold handle; destruct (decide g c PGet p (svc_obj l)) as [[n|f]| | |]; reflexivity).
+Qed.
+
 (* ------------------------------------------------------------------ 4. every route to an attribute is checked *)
 Lemma route_perm_sound r p : route_perm r = Some p ->
   r = match p with
@@ -394,6 +428,7 @@ Section Isolation.
   Variable d : cfg.
   Hypothesis Hcopy : f_init_copies F = true.
   Hypothesis Hown : f_on_connect_own F = true.
+  Hypothesis Hreq : f_requests_leave_config F = true.
   Definition own (x : upd * svc) : cfg := own_cfg d (fst x) (snd x).
   Definition Inv (w : world) (opens : list (upd * svc)) : Prop :=
     heap w = d :: map own opens /\ map cell (conns w) = seq 1 (List.length opens).
@@ -407,7 +442,7 @@ Section Isolation.
       + cbn [heap]. destruct s; rewrite !upd_nth_last, map_app; reflexivity.
       + cbn [conns]. rewrite map_app, Hc, app_length. cbn [map cell]. rewrite L, Nat.add_1_r, seq_S. reflexivity.
     - split; [exact Hh|]. simpl. now rewrite map_cell_upd_nth.
-    - split; assumption.
+    - rewrite Hreq. split; assumption.
   Qed.
   Lemma run_inv h : forall w opens, Inv w opens -> Inv (fold_left (step F) h w) (opens ++ opens_of h).
   Proof.
@@ -451,20 +486,28 @@ Section Isolation.
   Qed.
 End Isolation.
 
-(* had __init__ shared the default dict, or on_connect written to a shared dict, isolation would fail *)
+(* had __init__ shared the default dict, or on_connect written to a shared dict, or request-time code written to a
+   configuration dict, isolation would fail *)
 Definition d0 : cfg := dummy_cfg.
+Definition d1 : cfg := apply_upd [SetSw KGetattr true] dummy_cfg.
 Lemma isolation_refuted_shared_default F : f_init_copies F = false ->
   exists h i u s, nth_open h i = Some (u, s) /\ cfg_of (run F d0 h) i <> Some (own_cfg d0 u s).
 Proof.
   intros H. exists [HOpen [] SvcPlain; HOpen [SetSw KAll true] SvcPlain], 0%nat, [], SvcPlain.
-  split; [reflexivity|]. destruct F as [a b]. simpl in H. subst a. destruct b; vm_compute; discriminate.
+  split; [reflexivity|]. destruct F as [a b r]. simpl in H. subst a. destruct b, r; vm_compute; discriminate.
 Qed.
 Lemma isolation_refuted_foreign_on_connect F : f_on_connect_own F = false ->
   exists h i u s, nth_open h i = Some (u, s) /\ cfg_of (run F d0 h) i <> Some (own_cfg d0 u s).
 Proof.
-  intros H. destruct F as [a b]. simpl in H. subst b. destruct a.
-  - exists [HOpen [] SvcClassic; HOpen [] SvcPlain], 1%nat, [], SvcPlain. split; [reflexivity|]. vm_compute; discriminate.
-  - exists [HOpen [] SvcPlain; HOpen [] SvcClassic], 0%nat, [], SvcPlain. split; [reflexivity|]. vm_compute; discriminate.
+  intros H. destruct F as [a b r]. simpl in H. subst b. destruct a.
+  - exists [HOpen [] SvcClassic; HOpen [] SvcPlain], 1%nat, [], SvcPlain. split; [reflexivity|]. destruct r; vm_compute; discriminate.
+  - exists [HOpen [] SvcPlain; HOpen [] SvcClassic], 0%nat, [], SvcPlain. split; [reflexivity|]. destruct r; vm_compute; discriminate.
+Qed.
+Lemma isolation_refuted_request_writes F : f_requests_leave_config F = false ->
+  exists h i u s, nth_open h i = Some (u, s) /\ cfg_of (run F d1 h) i <> Some (own_cfg d1 u s).
+Proof.
+  intros H. exists [HOpen [] SvcPlain; HOpen [] SvcPlain; HAccess 1], 0%nat, [], SvcPlain.
+  split; [reflexivity|]. destruct F as [a b r]. simpl in H. subst r. destruct a, b; vm_compute; discriminate.
 Qed.
 
 (* ------------------------------------------------------------------ the generated decision on concrete inputs *)
